@@ -9,6 +9,7 @@ import MellonProofs.C01
 import Mathlib.LinearAlgebra.Matrix.PosDef
 import Mathlib.Algebra.Order.Star.Real
 import MellonProofs.PSDJoint
+import MellonProofs.InducingMonoLemmas
 
 open Matrix Finset
 
@@ -120,6 +121,132 @@ theorem var_nonneg_of_psd_kernel (s : CondState ℝ m d c) {L : Mat ℝ m m} (hs
     (hLLt : toM L * (toM L)ᵀ = toM (gram s.cov s.xb s.xb) + N) (i : Nat) (hi : i < q) : 0 ≤ C.el i i := by
   have := (cov_psd_of_psd_kernel s hsL hL Xq hC hk hN hLLt).diag_nonneg (i := ⟨i, hi⟩)
   simpa using this
+
+/-- **At conditioning points the covariance is the regulariser minus a Gram term**: with `L Lᵀ = K_bb + N`
+    (`N` symmetric) the posterior covariance at the basis points themselves is `N − BᵀB` with `L B = N`
+    (equivalently `N − N (K_bb + N)⁻¹ N`). -/
+theorem cov_at_conditioning (s : CondState ℝ m d c) {L : Mat ℝ m m} (hsL : s.L = some L) (hL : LowerNonsing L)
+    {C : Mat ℝ m m} (hC : s.covariance s.xb = .ok C) {N : Matrix (Fin m) (Fin m) ℝ} (hN : N.IsSymm)
+    (hLLt : toM L * (toM L)ᵀ = toM (gram s.cov s.xb s.xb) + N) :
+    ∃ B : Matrix (Fin m) (Fin m) ℝ, toM L * B = N ∧ toM C = N - Bᵀ * B := by
+  obtain ⟨C', hC', hform, hLA⟩ := cov_formula s hsL hL s.xb
+  rw [hC] at hC'
+  have : C = C' := Except.ok.inj hC'
+  subst this
+  have hdet := lowerNonsing_isUnit_det hL
+  set Lm := toM L with hLm
+  set A := toM (s.covA L s.xb) with hA
+  set K := toM (gram s.cov s.xb s.xb) with hK
+  have hinv : Lm⁻¹ * Lm = 1 := Matrix.nonsing_inv_mul _ hdet
+  have hinv' : Lm * Lm⁻¹ = 1 := Matrix.mul_nonsing_inv _ hdet
+  refine ⟨Lm⁻¹ * N, by rw [← Matrix.mul_assoc, hinv', Matrix.one_mul], ?_⟩
+  -- A = L⁻¹ K = L⁻¹ (L Lᵀ − N) = Lᵀ − L⁻¹ N
+  have hAeq : A = Lmᵀ - Lm⁻¹ * N := by
+    have h1 : A = Lm⁻¹ * K := by
+      rw [← hLA, ← Matrix.mul_assoc, hinv, Matrix.one_mul]
+    have h2 : K = Lm * Lmᵀ - N := by rw [hLLt]; abel
+    rw [h1, h2, Matrix.mul_sub, ← Matrix.mul_assoc, hinv, Matrix.one_mul]
+  rw [hform, hAeq]
+  have hLB : Lm * (Lm⁻¹ * N) = N := by rw [← Matrix.mul_assoc, hinv', Matrix.one_mul]
+  have hBL : (Lm⁻¹ * N)ᵀ * Lmᵀ = N := by
+    rw [← Matrix.transpose_mul, hLB, hN.eq]
+  have hK2 : K = Lm * Lmᵀ - N := by rw [hLLt]; abel
+  rw [hK2, Matrix.transpose_sub, Matrix.transpose_transpose, Matrix.sub_mul, Matrix.mul_sub, Matrix.mul_sub,
+    hLB, hBL]
+  abel
+
+/-- **Variances at conditioning points are at most the regulariser's diagonal** — for jitter-only
+    regularisation (`N = jitter · I`): `var(x_b) ≤ jitter`; together with `var_nonneg_of_psd_kernel` they
+    are "of the order of the jitter". -/
+theorem var_at_conditioning_le (s : CondState ℝ m d c) {L : Mat ℝ m m} (hsL : s.L = some L)
+    (hL : LowerNonsing L) {C : Mat ℝ m m} (hC : s.covariance s.xb = .ok C)
+    {N : Matrix (Fin m) (Fin m) ℝ} (hN : N.IsSymm)
+    (hLLt : toM L * (toM L)ᵀ = toM (gram s.cov s.xb s.xb) + N) (i : Fin m) : C.el i i ≤ N i i := by
+  obtain ⟨B, _, hCB⟩ := cov_at_conditioning s hsL hL hC hN hLLt
+  have h := congrFun (congrFun hCB i) i
+  simp only [toM_apply, Matrix.sub_apply, Matrix.mul_apply, Matrix.transpose_apply] at h
+  rw [h]
+  have : 0 ≤ ∑ t, B t i * B t i := Finset.sum_nonneg fun t _ => mul_self_nonneg _
+  linarith
+
+/-- … in particular `var(x_b) ≤ jitter` when the regulariser is `jitter · I`. -/
+theorem var_at_conditioning_le_jitter (s : CondState ℝ m d c) {L : Mat ℝ m m} (hsL : s.L = some L)
+    (hL : LowerNonsing L) {C : Mat ℝ m m} (hC : s.covariance s.xb = .ok C) {jitter : ℝ}
+    (hLLt : toM L * (toM L)ᵀ = toM (gram s.cov s.xb s.xb) + jitter • (1 : Matrix (Fin m) (Fin m) ℝ))
+    (i : Fin m) : C.el i i ≤ jitter := by
+  have hsym : (jitter • (1 : Matrix (Fin m) (Fin m) ℝ)).IsSymm := by
+    rw [Matrix.IsSymm, Matrix.transpose_smul, Matrix.transpose_one]
+  have := var_at_conditioning_le s hsL hL hC hsym hLLt i
+  simpa using this
+
+/-- The explained variance at a query row, `Σₜ Aₜᵢ²` with `L A = K_b*`, as `z · k` for the solution of
+    `(L Lᵀ) z = k`, `k` the cross-covariance column of that row. -/
+theorem explained_as_quad {L : Mat ℝ m m} (hL : LowerNonsing L) (A Kbq : Matrix (Fin m) (Fin q) ℝ)
+    (hLA : toM L * A = Kbq) (i : Fin q) :
+    ∃ z : Fin m → ℝ, (toM L * (toM L)ᵀ) *ᵥ z = (fun t => Kbq t i) ∧ z ⬝ᵥ (fun t => Kbq t i) = ∑ t, A t i * A t i := by
+  have hdet := lowerNonsing_isUnit_det hL
+  set Lm := toM L
+  have hdetT : IsUnit (Lmᵀ).det := by rw [Matrix.det_transpose]; exact hdet
+  let a : Fin m → ℝ := fun t => A t i
+  have hcol : Lm *ᵥ a = fun t => Kbq t i := by
+    funext t
+    have := congrFun (congrFun hLA t) i
+    simpa [Matrix.mul_apply, Matrix.mulVec, dotProduct] using this
+  refine ⟨(Lmᵀ)⁻¹ *ᵥ a, ?_, ?_⟩
+  · rw [Matrix.mulVec_mulVec, Matrix.mul_assoc, Matrix.mul_nonsing_inv _ hdetT, Matrix.mul_one, hcol]
+  · rw [← hcol, Matrix.dotProduct_mulVec, ← Matrix.mulVec_transpose, Matrix.mulVec_mulVec,
+      Matrix.mul_nonsing_inv _ hdetT, Matrix.one_mulVec]
+    rfl
+
+/-- **Variances never increase when inducing points are added.**  `s` conditions on `m` basis points, `s'`
+    on `m + k` whose first `m` are those of `s`, with the same kernel and regularisers that agree on the
+    common block (e.g. `jitter · I` for both); then every posterior variance of `s'` is at most that of `s`. -/
+theorem var_antitone_in_inducing {k : Nat} (s : CondState ℝ m d c) (s' : CondState ℝ (m + k) d c)
+    (hcov : s'.cov = s.cov) (hrows : ∀ i : Fin m, s'.xb.row (i : Nat) = s.xb.row i)
+    {L : Mat ℝ m m} {L' : Mat ℝ (m + k) (m + k)} (hsL : s.L = some L) (hsL' : s'.L = some L')
+    (hL : LowerNonsing L) (hL' : LowerNonsing L')
+    {N : Matrix (Fin m) (Fin m) ℝ} {N' : Matrix (Fin (m + k)) (Fin (m + k)) ℝ}
+    (hNN : ∀ i j : Fin m, N i j = N' (Fin.castAdd k i) (Fin.castAdd k j))
+    (hLLt : toM L * (toM L)ᵀ = toM (gram s.cov s.xb s.xb) + N)
+    (hLLt' : toM L' * (toM L')ᵀ = toM (gram s'.cov s'.xb s'.xb) + N')
+    (Xq : Mat ℝ q d) {C C' : Mat ℝ q q} (hC : s.covariance Xq = .ok C) (hC' : s'.covariance Xq = .ok C')
+    (i : Fin q) : C'.el i i ≤ C.el i i := by
+  obtain ⟨C0, hC0, hform, hLA⟩ := cov_formula s hsL hL Xq
+  obtain ⟨C0', hC0', hform', hLA'⟩ := cov_formula s' hsL' hL' Xq
+  rw [hC] at hC0; rw [hC'] at hC0'
+  have e1 : C = C0 := Except.ok.inj hC0
+  have e2 : C' = C0' := Except.ok.inj hC0'
+  subst e1; subst e2
+  obtain ⟨z, hz, hzq⟩ := explained_as_quad hL _ _ hLA i
+  obtain ⟨u, hu, huq⟩ := explained_as_quad hL' _ _ hLA' i
+  -- L' L'ᵀ is positive semi-definite
+  have hM : (toM L' * (toM L')ᵀ).PosSemidef := by
+    have := Matrix.posSemidef_self_mul_conjTranspose (toM L')
+    rwa [Matrix.conjTranspose_eq_transpose_of_trivial] at this
+  have hA : ∀ a b : Fin m, (toM L * (toM L)ᵀ) a b
+      = (toM L' * (toM L')ᵀ) (Fin.castAdd k a) (Fin.castAdd k b) := by
+    intro a b
+    rw [hLLt, hLLt', Matrix.add_apply, Matrix.add_apply, hNN a b, toM_apply, toM_apply,
+      gram_el s.cov s.xb s.xb a b a.isLt b.isLt,
+      gram_el s'.cov s'.xb s'.xb _ _ (Fin.castAdd k a).isLt (Fin.castAdd k b).isLt, hcov]
+    simp only [Fin.val_castAdd]
+    rw [hrows a, hrows b]
+  have hv : (fun t : Fin m => toM (gram s.cov s.xb Xq) t i)
+      = fun t : Fin m => toM (gram s'.cov s'.xb Xq) (Fin.castAdd k t) i := by
+    funext t
+    rw [toM_apply, toM_apply, gram_el s.cov s.xb Xq t i t.isLt i.isLt,
+      gram_el s'.cov s'.xb Xq _ i (Fin.castAdd k t).isLt i.isLt, hcov]
+    simp only [Fin.val_castAdd]
+    rw [hrows t]
+  have key := InducingMono.quad_inv_mono (toM L' * (toM L')ᵀ) hM (toM L * (toM L)ᵀ) hA u
+    (fun t => toM (gram s'.cov s'.xb Xq) t i) hu z (by rw [hz, hv])
+  rw [← hv, hzq, huq] at key
+  simp only [toM_apply] at key
+  have hCi := congrFun (congrFun hform i) i
+  have hCi' := congrFun (congrFun hform' i) i
+  simp only [toM_apply, Matrix.sub_apply, Matrix.mul_apply, Matrix.transpose_apply] at hCi hCi'
+  rw [hCi, hCi', hcov]
+  linarith
 
 /-! ### covariance of the mean -/
 
